@@ -141,11 +141,19 @@ impl Completions {
         // Process the remaining completions events that are ready.
         // NOTE: we explitly enter here to ensure we get the latests completions
         // from the kernel, poll doesn't guarantee that.
-        if let Err(err) = shared.enter(1, libc::IORING_ENTER_GETEVENTS, Some(Duration::ZERO)) {
-            log::warn!("error getting last completions: {err}");
-        }
-        if let Err(err) = self.poll(shared, Some(Duration::ZERO)) {
-            log::warn!("error processing last completions: {err}");
+        // NOTE: completions that overflowed the completion queue only become
+        // visible once we've made room for them, hence the loop.
+        loop {
+            if let Err(err) = shared.enter(1, libc::IORING_ENTER_GETEVENTS, Some(Duration::ZERO)) {
+                log::warn!("error getting last completions: {err}");
+            }
+            if load_kernel_shared(self.entries_head) == load_kernel_shared(self.entries_tail) {
+                break;
+            }
+            if let Err(err) = self.poll(shared, Some(Duration::ZERO)) {
+                log::warn!("error processing last completions: {err}");
+                break;
+            }
         }
     }
 }
